@@ -5,6 +5,10 @@ From YT Require Import Base.Str.
 Import ListNotations.
 Open Scope string_scope.
 
+Lemma forallb_map {X Y} (f : X -> Y) (p : Y -> bool) l :
+  forallb p (map f l) = forallb (fun x => p (f x)) l.
+Proof. induction l as [|x r IH]; simpl; [reflexivity|]. now rewrite IH. Qed.
+
 Section KV.
 Context {A : Type}.
 Notation kv := (list (string * A)).
